@@ -13,8 +13,9 @@ returns the cost reported by `graphutils.min_cost_flow` unchanged. What is model
 * `condWeightFunction` — `stDiGraph.get_width(edges_to_ignore)` given the SCC labelling
   (`nx.condensation(self).graph["mapping"]`, an oracle parameter): the expanded condensation (every
   SCC with at least one member edge — self-loops count — becomes an edge `c → c_expanded`), the
-  multiplicity of parallel inter-SCC edges, decremented once per *entry* of `edges_to_ignore`
-  (duplicates decrement twice; the value can become negative), member edges discarded, weight 0 for an
+  multiplicity of parallel inter-SCC edges, decremented once per *distinct* edge of `edges_to_ignore`
+  (the loop runs over `set(edges_to_ignore)` since fix afcb013: duplicates count once), member edges
+  discarded, weight 0 for an
   SCC all of whose member edges are ignored and 1 otherwise — also for trivial SCCs, whose key
   `(c, c_expanded)` is not an edge of the expanded graph (a phantom key, harmless, mirrored).
 -/
@@ -56,7 +57,7 @@ structure CondInput where
   g : Graph
   /-- `self._condensation.graph["mapping"]` -/
   scc : List (Node × Nat)
-  /-- `edges_to_ignore` as passed (a list: duplicates count) -/
+  /-- `edges_to_ignore` as passed; duplicates count once since fix afcb013 -/
   ignore : List Edge
   deriving Repr, Inhabited
 
@@ -84,10 +85,11 @@ def expanded (c : CondInput) : Graph :=
 /-- `self._condensation_expanded` -/
 def expandedST (c : CondInput) : STGraph := augment c.expanded [] []
 
-/-- `edge_multiplicity[(a, b)]` after the loop over `edges_to_ignore` -/
+/-- `edge_multiplicity[(a, b)]` after the loop over `set(edges_to_ignore)` (every distinct ignored
+edge decrements once, fix afcb013) -/
 def multiplicity (c : CondInput) (ab : Nat × Nat) : Int :=
   ((c.interEdges.filter fun e => (c.comp e.1, c.comp e.2) == ab).length : Int)
-    - ((c.ignore.filter fun e => c.comp e.1 != c.comp e.2 && (c.comp e.1, c.comp e.2) == ab).length : Int)
+    - ((c.ignore.eraseDups.filter fun e => c.comp e.1 != c.comp e.2 && (c.comp e.1, c.comp e.2) == ab).length : Int)
 
 /-- `member_edges[str(k)]` after the discards -/
 def membersLeft (c : CondInput) (k : Nat) : List Edge := (c.members k).filter fun e => !c.ignore.contains e
